@@ -1,21 +1,184 @@
 (* C06 — every script the filter factory generates is valid and self-sufficient.
 
-   What is proved here is the part of C06 that no test can settle: caller-supplied values can never
-   change the structure of the script.  Model: factory/Text.v ([fquote] = FiltersSet.__quote,
-   [quote_list] = __quote_list, [quote_if_necessary]) and sieve/Lexer.v (the lexer of the parser that
-   reads the script back).  Proofs: factory/TextFacts.v.  For EVERY byte string v and every text that
-   follows it, the quoted form of v is exactly one string token, and a quoted list is bracket, string
-   tokens separated by commas, bracket; the token's content unescapes to v.
-   The per-kind assembly of __create_filter (which tags, which require) is not modelled: validity,
-   strict validity and require coverage of whole generated scripts are checked on the implementation
-   with the strict validator, and skeleton independence is checked by re-lexing with the model lexer.
-   Values that start with a double or single quote are taken as already quoted by the factory
-   (quote_if_necessary, documented behaviour pinned by the suite) and are outside the claim. *)
+   Model: factory/Build.v follows FiltersSet.__create_filter, __build_condition, __add_tag, require,
+   check_if_arg_is_extension, __gen_require_command, disablefilter's wrapper and FiltersSet.tosieve statement by
+   statement on top of the models of Command.check_next_arg (sieve/ArgCheck.v) and Command.tosieve
+   (sieve/Printer.v); it is run against factory.py on every check (edit histories with generated definitions and
+   a malformed stream: return values, exception classes, rendered text, requires).
+   Proved (factory/BuildFacts.v, factory/BuildSet.v over sieve/PrintTree.v, CompleteTree.v, RenderFacts.v):
+     (a) values: the quoted form of EVERY byte string is exactly one string token whatever follows, its content
+         unescapes to the value, a quoted list is bracket / string tokens separated by commas / bracket
+         (factory/TextFacts.v) -- a caller-supplied value can never change the token structure;
+     (b) every documented condition form [dcond] (header fallback with :is/:contains/:matches and the :not forms,
+         one name or a list; exists/notexists; size; envelope; address; body :raw/:text; currentdate with match
+         types and with :value + relational operator; true; false) and every documented action form [dact]
+         whose definition has the shape ArgSpec describes (fileinto with :copy/:create/:flags, redirect with
+         :copy, reject, discard, stop, vacation with every subset of its tags): __create_filter does not raise,
+         the command it builds stands for a command of the grammar of CompleteTree (canonical form, with the
+         list separators the factory's trees print with) that is legal wherever the extensions it needs are
+         loaded (C06_condition_built, C06_condition_legal, C06_action_built, C06_action_legal);
+     (c) a whole filter -- any non-empty list of such conditions, any list of such actions, anyof or allof --
+         is `if anyof/allof (...) { ... }` in that sense, and the requirements recorded while it is built name
+         EVERY extension it uses (C06_filter_built, C06_requires_cover);
+     (d) a whole set: for any non-empty list of such filters, some wrapped in `if false { ... }` by disablefilter,
+         with requirements that cover them, the text FiltersSet.tosieve writes -- require line, blank line, the
+         marker comments, the filters -- is ACCEPTED by the parser and parses to the require command followed by
+         the filters in order, each an `if` carrying its marker lines, `if false` exactly for the disabled ones
+         (C06_set_accepted).  Unbounded over values, list lengths, numbers of conditions/actions/filters.
+   Hypotheses on values (each shown necessary by a generated case or a known finding): strings do not start with
+   a quote character (outside the claim), are valid UTF-8, lists are not empty, a header name given as one string
+   is not a condition keyword and does not start with "not" (the factory would take it for a negation -- recorded
+   in DESIGN.md), a string argument of an action does not start with ':'; marker lines contain no line feed.
+   Not proved: keep/setflag/addflag/removeflag (definitions outside wf_def: known findings of C01/C03), tag orders
+   other than the documented one (covered by the differential run and the strict validator). *)
 From Coq Require Import String.
 From Coq Require Import List NArith Bool Arith.
 From SV Require Import Bytes Lexer Text TextFacts.
 Import ListNotations.
 Local Open Scope nat_scope.
+From SV Require Import Tables ArgCheck ArgSpec Machine Printer CompleteFacts CompleteTree RenderFacts PrintTree GenTables Ops Build BuildFacts BuildSet.
+
+(* every documented condition form: the test __create_filter builds stands for [ctest d]; negation flag and requirements as stated *)
+Theorem C06_condition_built :
+  forall (qin : bytes -> bytes) (qlist : list bytes -> bytes),
+  (forall s : bytes, vok s -> qin s = quote s) ->
+  (forall l : list bytes, qlist l = 91%N :: join [44%N] (map quote l) ++ [93%N]) ->
+  forall (d : dcond) (loaded reqs : list bytes),
+  cond_ok d ->
+  exists f : frame,
+    build_test qin qlist gen_tables loaded (ctuple d) reqs = BOk (f, cneg d, creqs d reqs) /\
+    canon_test fsep (ctest qin d) (done f).
+Proof. exact BuildFacts.build_cond. Qed.
+Print Assumptions C06_condition_built.
+
+(* ... and that test is legal wherever its extensions are loaded *)
+Theorem C06_condition_legal :
+  forall qin : bytes -> bytes,
+  (forall s : bytes, vok s -> qin s = quote s) ->
+  forall (d : dcond) (L : list bytes),
+  cond_ok d ->
+  (forall e : bytes, In e (cexts d) -> mem e L = true) ->
+  exists n : node, wf_test gen_tables L (ctest qin d) n.
+Proof. exact BuildFacts.cond_wf. Qed.
+Print Assumptions C06_condition_legal.
+
+(* every documented action form: the command built stands for [acmd a] *)
+Theorem C06_action_built :
+  forall qin : bytes -> bytes,
+  (forall s : bytes, vok s -> qin s = quote s) ->
+  forall (a : dact) (loaded reqs : list bytes),
+  act_ok a ->
+  act_plain a ->
+  exists n : node,
+    build_action qin gen_tables loaded (atuple a) reqs = BOk (n, areqs a reqs) /\
+    canon_cmd fsep (acmd qin a) n.
+Proof. exact BuildFacts.build_act. Qed.
+Print Assumptions C06_action_built.
+
+(* ... and is legal wherever its extensions are loaded *)
+Theorem C06_action_legal :
+  forall qin : bytes -> bytes,
+  (forall s : bytes, vok s -> qin s = quote s) ->
+  forall (a : dact) (L : list bytes) (prev : option bytes),
+  act_ok a ->
+  (forall e : bytes, In e (aexts a) -> mem e L = true) ->
+  exists n : node, wf_cmd gen_tables L prev (acmd qin a) n L.
+Proof. exact BuildFacts.act_wf. Qed.
+Print Assumptions C06_action_legal.
+
+(* a whole filter built by __create_filter with the factory's own quoting functions *)
+Theorem C06_filter_built :
+  forall (loaded : list bytes) (conds : list dcond) (acts : list dact) 
+    (anyof : bool) (reqs : list bytes),
+  conds <> [] ->
+  Forall cond_ok conds ->
+  Forall act_ok acts ->
+  Forall act_plain acts ->
+  exists n : node,
+    create_filter quote_if_necessary quote_list gen_tables loaded 
+      (map ctuple conds) (map atuple acts) (mt_name anyof) reqs =
+    BOk (n, freqs conds acts reqs) /\
+    good n (std_fcmd conds acts anyof) (fexts conds acts) false.
+Proof. exact BuildSet.factory_filter_good. Qed.
+Print Assumptions C06_filter_built.
+
+(* the requirements recorded name every extension the filter uses *)
+Theorem C06_requires_cover :
+  forall (conds : list dcond) (acts : list dact) (reqs : list bytes) (e : bytes),
+  In e (fexts conds acts) -> mem e (freqs conds acts reqs) = true.
+Proof. exact BuildSet.freqs_covers. Qed.
+Print Assumptions C06_requires_cover.
+
+(* ... and nothing recorded earlier is lost *)
+Theorem C06_requires_grow :
+  forall (conds : list dcond) (acts : list dact) (reqs : list bytes),
+  sub reqs (freqs conds acts reqs).
+Proof. exact BuildSet.freqs_grows. Qed.
+Print Assumptions C06_requires_grow.
+
+(* disablefilter's `if false { ... }` around a good filter is good *)
+Theorem C06_disabled_wrapper :
+  forall (loaded : list bytes) (n : node) (g : gcmd) (exts : list bytes) (dis : bool),
+  good n g exts dis ->
+  exists n' : node,
+    wrap_disabled gen_tables loaded n = BOk n' /\ good n' (wrapped g) exts true.
+Proof. exact BuildSet.wrap_good. Qed.
+Print Assumptions C06_disabled_wrapper.
+
+(* the text of a whole set is accepted and parses to the filters in order with their marker lines *)
+Theorem C06_set_accepted :
+  forall (name_pre desc_pre : bytes) (loaded : list bytes) (fuel : nat) 
+    (reqs : list bytes) (sfs : list sfilter),
+  sfs <> [] ->
+  kreqs reqs ->
+  Forall (sf_ok name_pre desc_pre reqs fuel) sfs ->
+  1 <= fuel ->
+  exists (text : bytes) (ns nps : list node),
+    render_set gen_tables loaded fuel name_pre desc_pre
+      {| bs_requires := reqs; bs_filters := map sf_bf sfs |} = BOk text /\
+    parse gen_tables text = Accept ns /\
+    Forall2 (parsed_as name_pre desc_pre) sfs nps /\
+    match reqs with
+    | [] => ns = nps
+    | _ :: _ =>
+        exists rq : node,
+          ns = rq :: nps /\ d_name (node_def rq) = bs "require" /\ node_comments rq = []
+    end.
+Proof. exact BuildSet.factory_set_accepted. Qed.
+Print Assumptions C06_set_accepted.
+
+(* non-vacuity: a definition with ten condition forms and four action forms over hostile values (quotes, backslashes, commas, brackets, script fragments, a line feed, non-ASCII) meets the hypotheses *)
+Theorem C06_example_hypotheses :
+  Forall cond_ok ex_conds /\ Forall act_ok ex_acts /\ Forall act_plain ex_acts.
+Proof. exact BuildSet.ex_ok. Qed.
+Print Assumptions C06_example_hypotheses.
+
+(* ... and, evaluated on the model: added, disabled, rendered, parsed -- require, then the disabled filter with its marker line *)
+Theorem C06_example_pipeline :
+  match
+    b_addfilter gen_tables [] (bs "my filter") (map ctuple ex_conds) 
+      (map atuple ex_acts) (bs "anyof") b_empty
+  with
+  | BOk (RNone, st) =>
+      match
+        b_render gen_tables [] 8 (bs "# Filter: ") (bs "# Description: ")
+          (snd (b_step (FDisable (bs "my filter")) st))
+      with
+      | BOk text =>
+          match parse gen_tables text with
+          | Accept [rq] => False
+          | Accept [rq; f] =>
+              d_name (node_def rq) = bs "require" /\
+              node_comments f = [bs "# Filter: my filter"] /\ is_if_false f = true
+          | Accept (rq :: f :: _ :: _) => False
+          | _ => False
+          end
+      | _ => False
+      end
+  | _ => False
+  end.
+Proof. exact BuildSet.ex_pipeline. Qed.
+Print Assumptions C06_example_pipeline.
 
 (* the quoted form of ANY value lexes as exactly one string token, whatever follows *)
 Theorem C06_value_is_one_string_token :
